@@ -156,31 +156,31 @@ Proof. intros c p. simpl. unfold cpermute. symmetry. apply map_id. Qed.
 Definition csampler1 := ideal_sampler1 csem cread ccounts_of.
 Definition cestimator1 := ideal_estimator1 csem cexpect.
 
-(* np, n: number of parameters per circuit and of qubits.  The wf_* premises are not needed by the proofs (the functions
+(* The wf_* premises are not needed by the proofs (the functions
    are total); they delimit the inputs on which the instance describes Qiskit (no default is used). *)
 Theorem classical_sampler_paths :
-  forall st shots alpha np init circuits pvals,
+  forall st shots alpha init circuits pvals,
     stack_ok csem cpermute st -> shots <> 0%Z -> alpha_ok alpha = true ->
-    wf_call np init circuits pvals = true -> wf_sampler_call shots init circuits pvals = true ->
+    wf_call init circuits pvals = true -> wf_sampler_call shots init circuits pvals = true ->
     (forall ob, eval_operator_sampler ccompose cwid cagg_op (wrap_sampler cwmap st (pointwise csampler1)) shots ob alpha init circuits pvals
                 = Ok (map (objective_op csem ccompose capply cwid cread ccounts_of cagg_op shots ob alpha init) (combine circuits pvals)))
     /\ (forall f n, wf_table n f = true -> Forall (fun c : ccirc => fst c = n) circuits ->
                   eval_bitstring ccompose cwid cagg_bits (wrap_sampler cwmap st (pointwise csampler1)) shots f alpha init circuits pvals
                   = Ok (map (objective_bits csem ccompose capply cwid cread ccounts_of cagg_bits shots f alpha init) (combine circuits pvals))).
 Proof.
-  intros st shots alpha np init circuits pvals Hok Hs Ha _ _.
+  intros st shots alpha init circuits pvals Hok Hs Ha _ _.
   destruct (sampler_paths csem ccompose capply cpermute cwid cwmap cread ccounts_of cagg_op cagg_bits
               csem_compose cread_permute csampler1 (fun pub => eq_refl) st shots alpha init circuits pvals Hok Hs Ha) as [H1 H2].
   split; [exact H1 | intros f n _ _; apply H2].
 Qed.
 
 Theorem classical_estimator_path :
-  forall st ob np init circuits pvals,
-    stack_ok csem cpermute st -> wf_call np init circuits pvals = true ->
+  forall st ob init circuits pvals,
+    stack_ok csem cpermute st -> wf_call init circuits pvals = true ->
     eval_estimator ccompose (wrap_estimator crelabel false st (pointwise cestimator1)) ob init circuits pvals
     = Ok (map (objective_est csem capply cexpect ob init) (combine circuits pvals)).
 Proof.
-  intros st ob np init circuits pvals Hok _.
+  intros st ob init circuits pvals Hok _.
   apply estimator_path with (permute := cpermute); auto using cexpect_relabel, csem_compose.
 Qed.
 
@@ -215,11 +215,11 @@ Definition ex_stack : stack ccirc clayout (spub ccirc cparams cwiring) :=
 Lemma example_batch_sampler :
   stack_ok csem cpermute ex_stack
   /\ eval_operator_sampler ccompose cwid cagg_op (wrap_sampler cwmap ex_stack (pointwise csampler1)) 64 ex_obs (1 # 2)
-                           (Some ex_init) [ex_bell; ex_flip] [[0%Z]; [3%Z]] = Ok [(-3 # 2)%Q; (3 # 2)%Q]
+                           (Some ex_init) [ex_bell; ex_flip] [[]; [3%Z]] = Ok [(-3 # 2)%Q; (3 # 2)%Q]
   /\ map (objective_op csem ccompose capply cwid cread ccounts_of cagg_op 64 ex_obs (1 # 2) (Some ex_init))
-         (combine [ex_bell; ex_flip] [[0%Z]; [3%Z]]) = [(-3 # 2)%Q; (3 # 2)%Q]
-  /\ wf_call 1 (Some ex_init) [ex_bell; ex_flip] [[0%Z]; [3%Z]] = true
-  /\ wf_sampler_call 64 (Some ex_init) [ex_bell; ex_flip] [[0%Z]; [3%Z]] = true.
+         (combine [ex_bell; ex_flip] [[]; [3%Z]]) = [(-3 # 2)%Q; (3 # 2)%Q]
+  /\ wf_call (Some ex_init) [ex_bell; ex_flip] [[]; [3%Z]] = true
+  /\ wf_sampler_call 64 (Some ex_init) [ex_bell; ex_flip] [[]; [3%Z]] = true.
 Proof.
   split; [split; [apply pm_route_preserving | exact I]|].
   repeat split; vm_compute; reflexivity.
